@@ -214,6 +214,12 @@ func genVal(k string, r *rng, table bool, forPath bool) val {
 	case "enum":
 		names := []string{"RED", "GREEN", "BLUE"}
 		nums := []int32{1, 2, 7}
+		if r.Intn(5) == 0 {
+			// proto3 enums are open: a number without a declared name is a value like any other, and its JSON text form
+			// is the bare number
+			n := []int32{5, 42, -1, 2147483647}[r.pick(4)]
+			return mk(strconv.Itoa(int(n)), protoreflect.ValueOfEnum(protoreflect.EnumNumber(n)))
+		}
 		i := r.pick(3)
 		text := names[i]
 		if r.Bool() {
